@@ -16,4 +16,20 @@ PROPS = {
         rule="boundary lattice {0,±1,±2,±2^31,±2^32,±2^61,2^62-1,INT64 extremes} (exhaustive 4-tuples in thorough) plus random magnitudes 2^4..2^61 and forced equal products / collinear triples; a case is distinct by its request line, non-trivial = every record (each exercises a predicate on a fresh argument tuple)",
         explanation="Theorems: Multiply exact for all 2^128 inputs; ProductsAreEqual/CrossProductSign/IsCollinear exact on both code paths (generated from source each run). Correspondence: generated definitions and the exact integer Spec against the compiled functions (128-bit and portable branches).",
     ),
+    "C01": dict(
+        level="proof",
+        lean_targets=["ClipperVerif.Driver.Region"],
+        harnesses=[dict(src="C01.cpp", name="C01"), dict(src="C01.cpp", name="C01hp", flags=["-DCLIPPER2_HI_PRECISION=1"])],
+        trusted_base=[LEAN_TB, T_TB, C_TB],
+        rule="general-position inputs (premise re-verified exactly in Lean, margin 3 units) x 16 (ct,fr) x random PreserveCollinear/ReverseSolution x paths/polytree; probes along edges, around vertices and crossings and random; a record is non-trivial when the Lean side judged it (not `notgp`)",
+        explanation="",
+    ),
+    "C13": dict(
+        level="proof",
+        lean_targets=["ClipperVerif.Driver.Region"],
+        harnesses=[dict(src="C13.cpp", name="C13")],
+        trusted_base=[LEAN_TB, T_TB, C_TB],
+        rule="general-position inputs up to 2^40 (premise verified exactly in Lean); exact equality of canonicalised solutions under permutation / start rotation / duplicate+closing vertices / subject-clip swap / global reversal; region equality (exact winding numbers outside the band) for Xor=Union-Intersection, Difference+Intersection=subject, translation, transposition, mirroring, integer scaling",
+        explanation="",
+    ),
 }
